@@ -131,6 +131,15 @@ func existingDatabase(run *vk.Run, scratch string) {
 			bad(fmt.Sprintf("open #%d: LoadOffset(fixture sub/é) = %q, %v; saved was %q", round, o, err, evs[3].Offset))
 		}
 		if round == 1 {
+			// an event without a payload: the store may refuse it, but if it acknowledges it, it is in the log
+			if noff, nerr := st.Append(ctx, &ebu.Event{Type: "fixture.no-payload", Data: nil, Timestamp: time.Unix(1700000500, 0)}); nerr == nil {
+				after, _, _ := st.Read(ctx, ebu.OffsetOldest, 0)
+				if len(after) != want+1 || after[len(after)-1].Offset != noff {
+					bad(fmt.Sprintf("Append of an event without a payload was acknowledged with offset %q, but the log went from %d to %d events (its last offset is %q)", noff, want, len(after), after[len(after)-1].Offset))
+				}
+				st.Close()
+				return // (a store that takes such events: the rest of this scenario assumes it does not)
+			}
 			off, err := st.Append(ctx, fixtureEvent(fixtureEvents+1))
 			if err != nil || !(len(off) > len(evs[want-1].Offset) || off > evs[want-1].Offset) {
 				bad(fmt.Sprintf("Append after the existing events returned %q, %v (last existing offset %q)", off, err, evs[want-1].Offset))
